@@ -42,7 +42,7 @@ func (vc *FuncVC) userEffect(st *State) {
 
 func (vc *FuncVC) havocUserHeap(st *State) {
 	// contents of every map[string]any (SharedStore data) and the store's map field
-	dn, dso, vn, vso := mapHeaps(SStr, SIface)
+	dn, dso, vn, vso := mapHeaps(vc.w, userMapType)
 	st.heapHavoc(dn, dso)
 	st.heapHavoc(vn, vso)
 	st.heapHavoc("H_SharedStore_data", arraySort(SInt, SInt))
@@ -101,7 +101,7 @@ func (vc *FuncVC) ruleRequires(st *State, r *CallRule, site string, args []any) 
 			continue
 		}
 		g, _ := vc.safeBool(sc, c.E, site+"/requires")
-		vc.addOblig(st, "rule-requires", fmt.Sprintf("call:%s/requires#%d", site, c.Ord), c.Tags, g)
+		vc.addOblig(st, "rule-requires", fmt.Sprintf("call:%s/monitor#%d.%d", site, r.Ord, c.Ord), c.Tags, g)
 	}
 }
 
@@ -189,7 +189,7 @@ func (vc *FuncVC) doCall(st *State, fr *Frame, instr ssa.Instruction, cc *ssa.Ca
 		if callee == nil {
 			fvv := vc.valV(st, fr, cc.Value)
 			vc.nopanic(st, "nil-func-call", instr, not(eq(fvv.T, "0")))
-			res := vc.unknownFuncCall(st, fr, instr, cc, site, args, inTop)
+			res := vc.unknownFuncCall(st, fr, instr, cc, site, append([]any{fvv}, args...), inTop)
 			vc.setResult(fr, instr, res)
 			return nil
 		}
@@ -494,7 +494,7 @@ func (vc *FuncVC) havocLocation(st *State, sc *Scope, e Expr, site string) {
 			switch u := b.GT.Underlying().(type) {
 			case *types.Map:
 				ks, vs := w.sortOf(u.Key()), w.sortOf(u.Elem())
-				dn, dso, vn, vso := mapHeaps(ks, vs)
+				dn, dso, vn, vso := mapHeaps(w, u)
 				st.heapSet(dn, dso, sto(st.heapGet(dn, dso), b.T, st.fresh("hv", arraySort(ks, SBool))))
 				st.heapSet(vn, vso, sto(st.heapGet(vn, vso), b.T, st.fresh("hv", arraySort(ks, vs))))
 				return
@@ -703,7 +703,7 @@ func (vc *FuncVC) funcValueFrame(st *State, cc *ssa.CallCommon, args []any) {
 		if !ok || !isObjectStruct(nt) || nt.Obj().Name() == "SharedStore" {
 			continue
 		}
-		v, ok := args[i].(V)
+		v, ok := args[i+1].(V) // args[0] is the function value itself
 		if !ok {
 			continue
 		}
